@@ -30,11 +30,10 @@ UNITS = {
                 "fn_props": {**PRELUDE_FNS, "pr_.*": ["C17", "C09"]}},
     "interrupts": {"tpl": "interrupts.rs", "props": ["C18", "C09"],
                    "fn_props": {**PRELUDE_FNS, "int_13|store_input_line": ["C18", "C09"]}},
-    "lemmas": {"tpl": "lemmas.rs", "props": ["C05", "C07", "C08", "C12"],
-               "fn_props": {**PRELUDE_FNS, "lemma_rep.*": ["C07"], "lemma_push.*": ["C05"], "lemma_contiguous|lemma_len": ["C12"],
-                            "lemma_nested.*|lemma_ret_resumes.*": ["C08"]}},
+    "lemmas": {"tpl": "lemmas.rs", "props": ["C05", "C07", "C12"],
+               "fn_props": {**PRELUDE_FNS, "lemma_rep.*": ["C07"], "lemma_push.*": ["C05"], "lemma_contiguous|lemma_len": ["C12"]}},
     "transfer": {"tpl": "transfer.rs", "props": ["C08", "C14", "C04", "C12", "C18"],
-                 "fn_props": {**PRELUDE_FNS, "it_call|it_ret": ["C08", "C14"], "it_jumps_loops": ["C08", "C14"],
+                 "fn_props": {**PRELUDE_FNS, "it_call|it_ret": ["C08", "C14"], "lemma_nested.*|lemma_ret_resumes.*|bridge_.*": ["C08"], "it_jumps_loops": ["C08", "C14"],
                               "it_int": ["C14", "C18"], "it_byte_label|it_word_label": ["C04", "C12", "C14"], "get_type": ["C08", "C14"]}},
     "assembler": {"tpl": "assembler.rs", "props": ["C08", "C12", "C14", "C16", "C18", "C01", "C02", "C03", "C04", "C05", "C06", "C07", "C11", "C17", "C19"],
                   "assumes": ["unit assembler: ASSUMED contract of the nested PreprocessorParser::parse inside macro_use = the contract of macro_use itself one nesting level down (freeze/release balanced, an enclosing use keeps its position, expansion set restored, macro table unchanged, code only appended): induction on the nesting depth; that depth is bounded (termination) is not proved",
